@@ -23,17 +23,31 @@ Inductive cop :=
 | CLoadBad                        (* load of data that is not a readable database *)
 | CBoot (c : list N)              (* boot: only on a single-node cluster *)
 | CSnap (i : nat) (o : outcome) (compact : bool)
-                                  (* node i snapshots with persist outcome o; compact: the leader keeps one trailing log entry *)
+                                  (* node i snapshots (fsmSnapshot, then persist with outcome o, nothing applied in
+                                     between); compact: the leader keeps one trailing log entry *)
+| CSnapBegin (i : nat)            (* node i: fsmSnapshot; the snapshot is in flight while entries go on being applied *)
+| CSnapPersist (i : nat) (o : outcome)   (* node i: the snapshot in flight is persisted / released with outcome o *)
+| CSnapBlocked (i : nat)          (* node i: a snapshot attempt whose checkpoint is blocked by a reader *)
 | CRestart (i : nat)              (* node i stops and starts *)
 | CJoin.                          (* a new node joins and catches up *)
 
 Definition all_nodes (c : cluster) (o : op) : cluster :=
   {| nodes := map (fun s => fst (step s o)) (nodes c); compacted := compacted c |}.
 
-Fixpoint at_node (l : list st) (i : nat) (o : op) : list st :=
+(* fsmSnapshot immediately followed by the persist: one snapshot as raft takes it when nothing is applied meanwhile *)
+Definition snap2 (s : st) (o : outcome) : st * N :=
+  let '(s1, r1) := step s OSnapBegin in
+  if r1 =? 0 then step s1 (OSnapPersist o) else (s1, r1).
+
+(* what one node does on its own *)
+Inductive lop := LSnap2 (o : outcome) | LOp (o : op).
+Definition lstep (s : st) (l : lop) : st * N :=
+  match l with LSnap2 o => snap2 s o | LOp o => step s o end.
+
+Fixpoint at_node (l : list st) (i : nat) (o : lop) : list st :=
   match l, i with
   | [], _ => []
-  | s :: r, O => fst (step s o) :: r
+  | s :: r, O => fst (lstep s o) :: r
   | s :: r, S j => s :: at_node r j o
   end.
 
@@ -44,7 +58,7 @@ Definition sql_frames (c : list N) : frames := vec_cells 1 c.
    it; otherwise raft installs the leader's newest snapshot (database + WAL files of the chain) and replays
    the entries after it. *)
 Definition blank (l : list entry) : st :=
-  {| dbf := []; wal := []; staging := []; snaps := []; full_needed := false; log := l |}.
+  {| dbf := []; wal := []; staging := []; snaps := []; full_needed := false; log := l; mnewer := false; pending := None |}.
 
 Definition join_node (c : cluster) : option st :=
   match nodes c with
@@ -54,7 +68,8 @@ Definition join_node (c : cluster) : option st :=
         match snaps L, resolve (snaps L) with
         | _ :: _, Some (db, ws) =>
             let s0 := {| dbf := apply_segs db ws; wal := []; staging := [];
-                         snaps := [SFull (newest_idx L) db ws]; full_needed := false; log := log L |} in
+                         snaps := [SFull (newest_idx L) db ws]; full_needed := false; log := log L;
+                         mnewer := false; pending := None |} in
             Some (fold_left apply_phys (suffix L) s0)
         | _, _ => None
         end
@@ -62,7 +77,8 @@ Definition join_node (c : cluster) : option st :=
   end.
 
 (* result codes: 0 done, 1 nothing to snapshot, 3 load rejected, 5 boot refused (not a single node),
-   6 no such node / cannot join, 7 checkpoint blocked by a reader *)
+   6 no such node / cannot join, 7 checkpoint blocked by a reader, 8 not possible now (snapshot in flight / none),
+   10 incremental persist refused (full needed) *)
 Definition cstep (c : cluster) (o : cop) : cluster * N :=
   match o with
   | CWrite ks v => (all_nodes c (OWrite ks v), 0)
@@ -73,21 +89,38 @@ Definition cstep (c : cluster) (o : cop) : cluster * N :=
   | CLoadBad => (all_nodes c OLoadBad, 3)
   | CBoot d =>
       match nodes c with
-      | [s] => ({| nodes := [fst (step s (OBoot d))]; compacted := true |}, 0)
+      | [s] =>
+          let res := snd (step s (OBoot d)) in        (* 8: refused while a snapshot of the node is in flight *)
+          ({| nodes := [fst (step s (OBoot d))]; compacted := compacted c || (res =? 0) |}, res)
       | _ => (c, 5)
       end
   | CSnap i out compact =>
       match nth_error (nodes c) i with
       | Some s =>
-          let res := snd (step s (OSnap out)) in
-          ({| nodes := at_node (nodes c) i (OSnap out);
+          let res := snd (snap2 s out) in
+          ({| nodes := at_node (nodes c) i (LSnap2 out);
               compacted := compacted c
                            || (compact && Nat.eqb i 0 && (res =? 0) && match out with POk => true | _ => false end) |}, res)
       | None => (c, 6)
       end
+  | CSnapBegin i =>
+      match nth_error (nodes c) i with
+      | Some s => ({| nodes := at_node (nodes c) i (LOp OSnapBegin); compacted := compacted c |}, snd (step s OSnapBegin))
+      | None => (c, 6)
+      end
+  | CSnapPersist i out =>
+      match nth_error (nodes c) i with
+      | Some s => ({| nodes := at_node (nodes c) i (LOp (OSnapPersist out)); compacted := compacted c |}, snd (step s (OSnapPersist out)))
+      | None => (c, 6)
+      end
+  | CSnapBlocked i =>
+      match nth_error (nodes c) i with
+      | Some s => ({| nodes := at_node (nodes c) i (LOp OSnapBlocked); compacted := compacted c |}, snd (step s OSnapBlocked))
+      | None => (c, 6)
+      end
   | CRestart i =>
       match nth_error (nodes c) i with
-      | Some s => ({| nodes := at_node (nodes c) i ORestart; compacted := compacted c |}, 0)
+      | Some s => ({| nodes := at_node (nodes c) i (LOp ORestart); compacted := compacted c |}, 0)
       | None => (c, 6)
       end
   | CJoin =>
@@ -101,14 +134,16 @@ Definition crun (ops : list cop) : cluster := fold_left (fun c o => fst (cstep c
 
 (* ---- correspondence ---- *)
 (* per node: live dump, FULL_NEEDED, catalog (is-full, index, WAL files) *)
-Record nobs := { no_live : list N; no_full : bool; no_cat : list (bool * N * N) }.
+Record nobs := { no_live : list N; no_full : bool; no_cat : list (bool * N * N); no_pend : N }.
 Record cobs := { co_res : N; co_nodes : list nobs }.
 
 Definition nobserve (s : st) : nobs :=
-  {| no_live := dump (live s); no_full := full_needed s; no_cat := map cat_of (snaps s) |}.
+  {| no_live := dump (live s); no_full := full_needed s; no_cat := map cat_of (snaps s);
+     no_pend := match pending s with None => 0 | Some (PendFull _ _ _) => 1 | Some (PendInc _ _) => 2 end |}.
 
 Definition nobs_eqb (a b : nobs) : bool :=
-  list_eqb N.eqb (no_live a) (no_live b) && Bool.eqb (no_full a) (no_full b) && list_eqb cat_eqb (no_cat a) (no_cat b).
+  list_eqb N.eqb (no_live a) (no_live b) && Bool.eqb (no_full a) (no_full b) && list_eqb cat_eqb (no_cat a) (no_cat b)
+  && (no_pend a =? no_pend b).
 
 Definition cobs_eqb (a b : cobs) : bool :=
   (co_res a =? co_res b) && list_eqb nobs_eqb (co_nodes a) (co_nodes b).
